@@ -84,3 +84,8 @@ add("C17.import","VH_c17_import",TBL,c17,{"segs":1},{"segs":1},expect_reach=["en
 add("C17.membership","VH_c17_membership",TBL,c17,{"steps":3,"segs":1},{"steps":4,"segs":1},expect_reach=["end"],bounds="histories of `steps` membership announcements/withdrawals over 2 targets + default x 2 origin AS x 2 path-ids")
 add("C17.vpn_index","VH_c17_vpn_index",TBL,c17,{"steps":3,"segs":1},{"steps":4,"segs":1},expect_reach=["end"])
 add("C17.delete_vrf","VH_c17_delete_vrf",TBL,c17,{"params":{"segs":1},"unwind":2200},{"params":{"segs":1},"unwind":2200},merge=C3M,expect_reach=["end"])
+c06=["bgp/c06.go"]
+add("C06.strongest_one","VH_c06_strongest",BGP,c06,{"two":0},{"two":0},merge=UM,expect_reach=["clean","end"],bounds="valid base UPDATE (ORIGIN, AS_PATH, NEXT_HOP, MED, one /16 NLRI, values symbolic) with one fault of a 14-entry catalogue, fault parameters symbolic, eBGP/iBGP symbolic")
+add("C06.strongest_two","VH_c06_strongest",BGP,c06,{"two":1},{"two":1},merge=UM,expect_reach=["end"],bounds="the same base UPDATE with every compatible unordered pair of faults of the catalogue")
+add("C06.treat_as_withdraw","VH_c06_treat_as_withdraw",TBL,tc+["table/c06.go","table/c02.go","table/c03.go","table/c14.go"],{"segs":1},{"segs":1},expect_reach=["end"],bounds="UPDATE naming 5 prefixes (2 NLRI, 1 withdrawn, 1 MP_REACH, 1 MP_UNREACH) with symbolic address bytes, treat-as-withdraw symbolic")
+add("C06.handling_error","VH_c06_handling_error",SRV,sc+["server/c06.go"],expect_reach=["end"],bounds="every error class x message type x revised error handling on/off")
